@@ -56,7 +56,9 @@ def _size_ok(op, a, b):
 def _kind(x):
     if is_int_lit(x):
         return "int"
-    return {'"': "str", "[": "list", "(": "tuple", "{": "dict", "N": "none"}[x[0]]
+    if x[0].isdigit() or (x[0] == "-" and x[1].isdigit()):
+        return "float"
+    return {'"': "str", "[": "list", "(": "tuple", "{": "dict", "N": "none", "T": "bool", "F": "bool"}[x[0]]
 
 
 def _shared_ok(op, a, b):
